@@ -20,12 +20,9 @@ def prepare(repo):
     _write_if_changed(os.path.join(work, '.cargo', 'config.toml'),
                       '[net]\noffline = true\n[build]\ntarget-dir = "%s"\n' % os.path.join(CACHE, 'kani-target-' + tag))
     src = os.path.join(work, 'src')
-    if os.path.islink(src) or os.path.exists(src):
-        if os.path.islink(src):
-            os.unlink(src)
-        else:
-            shutil.rmtree(src)
-    shutil.copytree(os.path.join(VERIF, 'kani', 'src'), src)
+    os.makedirs(src, exist_ok=True)
+    for f in os.listdir(os.path.join(VERIF, 'kani', 'src')):
+        _write_if_changed(os.path.join(src, f), open(os.path.join(VERIF, 'kani', 'src', f)).read())
     lock = os.path.join(repo, 'Cargo.lock')
     if os.path.exists(lock) and not os.path.exists(os.path.join(work, 'Cargo.lock')):
         shutil.copy(lock, os.path.join(work, 'Cargo.lock'))
